@@ -292,7 +292,9 @@ def load(R):
                ensures=["self.key == 'GlobalVariable;' + NS(parent_symbol) + ';' + symbol"] + COMMON, modifies=["self.*"])
     R.contract(C + "UndefinedSymbolHashRule.__init__", prop="C03",
                types={"self": TEnt("UndefinedSymbolHashRule"), "ref": TObj(), "parent_symbol": TOpt(TStr), "symbol": TStr, "first_level": TBool, "ref_is_global_table": TBool},
-               ensures=["self.key == 'UndefinedSymbol;' + NS(parent_symbol) + ';' + symbol"] + COMMON, modifies=["self.*"])
+               ensures=["self.key == 'UndefinedSymbol;' + NS(parent_symbol) + ';' + symbol",
+                        # what the rule watches (used by the traversal's contract, contracts/traversal.py): the place and the name where the symbol would appear
+                        "same(self.ref, ref)", "self.ref_is_global_table == ref_is_global_table"] + COMMON, modifies=["self.*"])
     HR = TEnt("HashRule")
     R.uf("py_hash_str", [TStr], TInt)
     R.constructors["hash"] = lambda ex, args, kwargs: VInt(R.ufs["py_hash_str"][0](ex.to_term(args[0], TStr)))
